@@ -26,6 +26,23 @@ pub fn check(r: &ExecResult, unsubbed: &[u32], kept: &[u32], channeled: &[u32]) 
             ));
         }
     }
+    // the subscribers that stay keep their registration order within each action (direct ones)
+    let kept_direct: Vec<u32> = {
+        let mut k: Vec<u32> = kept.iter().copied().filter(|s| !channeled.contains(s)).collect();
+        k.sort();
+        k
+    };
+    for a in &p.order {
+        let mut last = 0usize;
+        for &s in &kept_direct {
+            if let Some(c) = cbs_of(r, "notify").find(|c| c.comp == s && c.act == *a) {
+                if c.i < last {
+                    f.push(fnd("lifecycle-kept-sub-order", format!("for action {} subscriber {} was called before an earlier-registered one after another subscriber had left", a, s)));
+                }
+                last = c.i;
+            }
+        }
+    }
     for &s in unsubbed {
         let urets: Vec<usize> = rets(r, "unsubscribe").filter(|c| c.a as u32 == s).map(|c| c.i).collect();
         let ucalls: Vec<usize> = calls(r, "unsubscribe").filter(|c| c.a as u32 == s).map(|c| c.i).collect();
@@ -89,6 +106,8 @@ pub fn scenarios(tier: Tier) -> Vec<Scenario> {
     let mut v = vec![];
     // who: which subscriber the unsubscriber thread releases (1 = direct A, 3 = channeled C, 0 none)
     let mut add = |np: u32, k: u32, who: u32, twice: bool, with_chan: bool, race_stop: bool, bound: u32| {
+        // a third direct subscriber wherever there is no channeled one
+        let three = !with_chan;
         let mut prog = producers(Program::new(StoreSpec::new(1, 2, Pol::Block)), np, k, |_, id| Op::Dispatch(Act::new(id)));
         if who != 0 {
             let mut ops = vec![Op::Unsub(who)];
@@ -100,6 +119,10 @@ pub fn scenarios(tier: Tier) -> Vec<Scenario> {
         let mut main = vec![Op::AddSub { id: 1, gated: false, reads: false }, Op::AddSub { id: 2, gated: false, reads: false }];
         let mut kept = vec![2u32];
         let mut channeled = vec![];
+        if three {
+            main.push(Op::AddSub { id: 4, gated: false, reads: false });
+            kept.push(4);
+        }
         if with_chan {
             main.push(Op::Subscribed { id: 3, cap: 1, pol: Pol::Block, gated: false, reads: false });
             channeled.push(3);
@@ -121,7 +144,7 @@ pub fn scenarios(tier: Tier) -> Vec<Scenario> {
         // with stop() racing the producers a rejected dispatch is fine; streams are still
         // compared against what was actually reduced
         v.push(scn(
-            format!("C09/P{}k{}who{}{}{}{}", np, k, who, if twice { "x2" } else { "" }, if with_chan { "+chan" } else { "" }, if race_stop { "race" } else { "" }),
+            format!("C09/P{}k{}who{}{}{}{}{}", np, k, who, if three { "+3rd" } else { "" }, if twice { "x2" } else { "" }, if with_chan { "+chan" } else { "" }, if race_stop { "race" } else { "" }),
             prog,
             bound,
             opts_elide(),
